@@ -45,7 +45,7 @@ class ExprMixin:
             if name in cl.locals:
                 return cl.locals[name]
             cl = cl.closure
-        if name in ('g_out', 'g_enc', 'g_dec', 'g_nframes', 'g_ngoaway') and self.spec_mode:
+        if name in ('g_out', 'g_enc', 'g_dec', 'g_nframes', 'g_ngoaway', 'g_nencode') and self.spec_mode:
             if self.in_old and name != 'g_out':
                 return self.old_ghost[name]
             return getattr(self, name)
